@@ -213,3 +213,256 @@ func scratchEscapes(p *Program, v ssa.Value, depth int, seen map[ssa.Value]bool)
 	}
 	return nil
 }
+
+// R26d STALE-SEGMENT-STATE (C05, C06) — in a loop over the input segments (or over a per-segment table), a
+// variable that holds something looked up for the current segment ("the next deleted document", "this
+// segment's reader") and that only some iterations assign would, in the others, still hold what the
+// previous segment left in it. Recognised structurally: a variable carried round the loop (a phi at the
+// loop head) whose in-loop definitions do not depend on its previous value (so it is not a running total,
+// a counter or a recycled buffer, whose new value is made from the old one), that reaches a use inside
+// the loop on a path that has not assigned it in this iteration. Constants are fine (a reset).
+func r26StaleSegmentState(c *RuleCtx) {
+	p := c.p
+	props := []string{"C05", "C06"}
+	n := 0
+	for _, fn := range p.ZapFuncs {
+		if len(fn.Blocks) == 0 {
+			continue
+		}
+		for _, l := range naturalLoops(fn) {
+			rs := l.rangedSlice()
+			if rs == nil || !isPerSegmentSliceType(rs.Type()) {
+				continue
+			}
+			n++
+			for _, in := range l.header.Instrs {
+				x, ok := in.(*ssa.Phi)
+				if !ok {
+					break
+				}
+				if x.Comment == "rangeindex" {
+					continue
+				}
+				// the phis inside the loop through which x travels
+				web := map[*ssa.Phi]bool{x: true}
+				for changed := true; changed; {
+					changed = false
+					for b := range l.blocks {
+						for _, in2 := range b.Instrs {
+							ph, ok := in2.(*ssa.Phi)
+							if !ok {
+								break
+							}
+							if web[ph] {
+								continue
+							}
+							for _, e := range ph.Edges {
+								if q, ok := e.(*ssa.Phi); ok && web[q] {
+									web[ph] = true
+									changed = true
+								}
+							}
+						}
+					}
+				}
+				// in-loop definitions: non-phi, non-constant edges of the web
+				var defs []ssa.Value
+				for ph := range web {
+					for i, e := range ph.Edges {
+						if ph == x && !l.blocks[ph.Block().Preds[i]] {
+							continue // what it enters the loop with
+						}
+						if q, ok := e.(*ssa.Phi); ok && web[q] {
+							continue
+						}
+						if _, isK := e.(*ssa.Const); isK {
+							continue
+						}
+						defs = append(defs, e)
+					}
+				}
+				if len(defs) == 0 {
+					continue
+				}
+				// a definition made from the old value: a running total / recycled buffer
+				dependsOnWeb := false
+				for _, d := range defs {
+					seen := map[ssa.Value]bool{}
+					var dep func(v ssa.Value, depth int) bool
+					dep = func(v ssa.Value, depth int) bool {
+						if v == nil || depth > 10 || seen[v] {
+							return false
+						}
+						seen[v] = true
+						if ph, ok := v.(*ssa.Phi); ok && web[ph] {
+							return true
+						}
+						if in3, ok := v.(ssa.Instruction); ok {
+							for _, op := range in3.Operands(nil) {
+								if *op != nil && dep(*op, depth+1) {
+									return true
+								}
+							}
+						}
+						return false
+					}
+					if dep(d, 0) {
+						dependsOnWeb = true
+					}
+				}
+				if dependsOnWeb {
+					continue
+				}
+				// is the carried value used (other than being carried on) inside the loop, through phis that
+				// have x itself (the previous iteration's value) as one possibility?
+				mayBeOld := map[*ssa.Phi]bool{x: true}
+				for changed := true; changed; {
+					changed = false
+					for ph := range web {
+						if mayBeOld[ph] || !l.blocks[ph.Block()] {
+							continue
+						}
+						for _, e := range ph.Edges {
+							if q, ok := e.(*ssa.Phi); ok && mayBeOld[q] {
+								// the inner loop's own carried phi: old only if it enters from an old one
+								mayBeOld[ph] = true
+								changed = true
+							}
+						}
+					}
+				}
+				// accumulators whose new value is not computed from the old one but chosen by looking at it:
+				// a flag or-ed / and-ed up (`seen = seen || x`: the carried value is itself a branch condition),
+				// a latch (`if first == nil { first = x }`: compared with a constant), a running extreme
+				// (`if x > best { best = x }`: compared with the value that replaces it)
+				chosenByOld := false
+				for b := range l.blocks {
+					iff, ok := b.Instrs[len(b.Instrs)-1].(*ssa.If)
+					if !ok {
+						continue
+					}
+					cond := iff.Cond
+					if u, ok := cond.(*ssa.UnOp); ok && u.Op == token.NOT {
+						cond = u.X
+					}
+					if ph, ok := cond.(*ssa.Phi); ok && web[ph] {
+						chosenByOld = true
+					}
+					if bo, ok := cond.(*ssa.BinOp); ok {
+						isWeb := func(v ssa.Value) bool {
+							if cv, ok := v.(*ssa.Convert); ok {
+								v = cv.X
+							}
+							if call, ok := v.(*ssa.Call); ok {
+								if bi, ok := call.Call.Value.(*ssa.Builtin); ok && (bi.Name() == "len" || bi.Name() == "cap") {
+									v = call.Call.Args[0]
+								}
+							}
+							ph, ok := v.(*ssa.Phi)
+							return ok && web[ph]
+						}
+						isKonst := func(v ssa.Value) bool { _, ok := v.(*ssa.Const); return ok }
+						isDef := func(v ssa.Value) bool {
+							for _, d := range defs {
+								if d == v {
+									return true
+								}
+							}
+							return false
+						}
+						if (isWeb(bo.X) && (isKonst(bo.Y) || isDef(bo.Y))) || (isWeb(bo.Y) && (isKonst(bo.X) || isDef(bo.X))) {
+							chosenByOld = true
+						}
+					}
+				}
+				if chosenByOld {
+					continue
+				}
+				var use ssa.Instruction
+				for ph := range mayBeOld {
+					if ph.Referrers() == nil {
+						continue
+					}
+					for _, r := range *ph.Referrers() {
+						if _, isPhi := r.(*ssa.Phi); isPhi {
+							continue
+						}
+						if _, isDbg := r.(*ssa.DebugRef); isDbg {
+							continue
+						}
+						// the carried value compared with this iteration's own value of the same thing — the very
+						// value that may replace it, or the same computation (`index.D() != dims` next to
+						// `dims = index.D()`; `sameFieldList(refFields, fields)` next to `refFields = fields`):
+						// reading what an earlier segment left is the point (a running extreme, a consistency
+						// check against the first segment)
+						isCandidate := func(v ssa.Value) bool {
+							v = stripConv(v)
+							for _, d := range defs {
+								d = stripConv(d)
+								if d == v || sameValue(d, v) {
+									return true
+								}
+								c1, ok1 := d.(*ssa.Call)
+								c2, ok2 := v.(*ssa.Call)
+								if ok1 && ok2 && len(c1.Call.Args) == len(c2.Call.Args) {
+									same := c1.Call.IsInvoke() == c2.Call.IsInvoke()
+									if same && c1.Call.IsInvoke() {
+										same = c1.Call.Method == c2.Call.Method && (sameValue(c1.Call.Value, c2.Call.Value) || sameQuantity(c1.Call.Value, c2.Call.Value, 0))
+									} else if same {
+										same = c1.Call.StaticCallee() != nil && c1.Call.StaticCallee() == c2.Call.StaticCallee()
+									}
+									for i := range c1.Call.Args {
+										if same && !sameValue(c1.Call.Args[i], c2.Call.Args[i]) && !sameQuantity(c1.Call.Args[i], c2.Call.Args[i], 0) {
+											same = false
+										}
+									}
+									if same {
+										return true
+									}
+								}
+							}
+							return false
+						}
+						if bo, isBO := r.(*ssa.BinOp); isBO {
+							switch bo.Op {
+							case token.LSS, token.GTR, token.LEQ, token.GEQ, token.EQL, token.NEQ:
+								if isCandidate(bo.X) || isCandidate(bo.Y) {
+									continue
+								}
+							}
+						}
+						if call, isCall := r.(*ssa.Call); isCall {
+							cmp := false
+							for _, a := range call.Call.Args {
+								if a != ssa.Value(ph) && isCandidate(a) {
+									cmp = true
+								}
+							}
+							if cmp {
+								continue
+							}
+						}
+						if _, isMI := r.(*ssa.MakeInterface); isMI {
+							continue // formatted into a message
+						}
+						if l.blocks[r.Block()] && use == nil {
+							use = r
+						}
+					}
+				}
+				if use == nil {
+					continue
+				}
+				name := x.Comment
+				if name == "" {
+					name = "a variable"
+				}
+				c.add(Violated, fmt.Sprintf("stale-segment-state/%s/%s", funcShortName(fn), name), c.pos(use),
+					"a variable of "+funcShortName(fn)+" that holds something looked up for the current segment is assigned in every iteration of the loop over the segments before it is used",
+					name+" is carried from one segment to the next, only some iterations assign it, and it is read in the loop: a segment for which it is not assigned sees the previous segment's value", props,
+					[]string{"read: " + describeInstr(p, use)})
+			}
+		}
+	}
+	c.okP(props, "stale-segment-state/loops", "-", fmt.Sprintf("loops over per-segment tables examined: %d", n))
+}
